@@ -101,7 +101,9 @@ def scripts_for(ctx, quick):
            edns=tset(["off", "do"]))
     # G8: low-level renderer under small budgets: an RRset that overflows is rolled back and is followed by record
     #     sets sharing the rolled-back owner / suffixes (stale or missing table entries at the rollback point)
-    S += g("g8.cfg", names=tset([2, 3, 4]), targets=tset([3]), kinds=tset(["A", "NS"]), maxrecs=3, maxes=tset([40, 45, 56]))
+    S += g("g8.cfg", names=tset([2, 3]), targets=tset([3]), kinds=tset(["A", "NS"]), maxrecs=3 if not quick else 2,
+           maxes=tset([45, 56]))
+    S += g("g8b.cfg", names=tset([3]), targets=tset([3]), kinds=tset(["A", "NS"]), maxrecs=3 if quick else 4, maxes=tset([40, 45, 56, 70]))
     # G4: rendering relative to an origin
     S += g("g4.cfg", opcodes=tset([0, 5]), names=tset([2, 4, 5]), targets=tset([2, 5]), kinds=tset(["NS"]),
            origins=tset([True]), forms=tset(["add", "rrset-exists", "del-rr"]))
